@@ -78,7 +78,8 @@ def Rcol (c : Chr) : Path → Bool
   | .groups c' => c' == c
   | .bamstat c' => c' == c
   | .collected c' => c' == c
-  | .refFa => true          -- the unpacked reference (written by the main process before the stage)
+  | .refFa => true          -- the unpacked reference and the index (written by the main process before the stage)
+  | .refFaiData => true
   | _ => false
 
 theorem collectChr_agree (v : Variant) (cfg : Cfg) (rs sk : Bool) (c : Chr) (fs fs' : FS)
@@ -88,7 +89,8 @@ theorem collectChr_agree (v : Variant) (cfg : Cfg) (rs sk : Bool) (c : Chr) (fs 
   have h3 : fs' (.groups c) = fs (.groups c) := h _ (by simp [Rcol])
   have h4 : fs' (.save c) = fs (.save c) := h _ (by simp [Rcol])
   have h5 : fs' .refFa = fs .refFa := h _ rfl
-  simp only [collectChr, refOK, FS.has, FS.good, h1, h2, h3, h4, h5]
+  have h6 : fs' .refFaiData = fs .refFaiData := h _ rfl
+  simp only [collectChr, refOK, FS.has, FS.good, h1, h2, h3, h4, h5, h6]
   rfl
 
 theorem collectChr_paths (v : Variant) (cfg : Cfg) (rs sk : Bool) (c : Chr) (fs : FS) :
@@ -116,6 +118,7 @@ def Rcon (c : Chr) : Path → Bool
   | .trStat c' => c' == c
   | .processed c' => c' == c
   | .refFa => true
+  | .refFaiData => true
   | _ => false
 
 theorem constructChr_agree (v : Variant) (cfg : Cfg) (rs : Bool) (c : Chr) (fs fs' : FS)
@@ -123,7 +126,8 @@ theorem constructChr_agree (v : Variant) (cfg : Cfg) (rs : Bool) (c : Chr) (fs f
   have h1 : fs' (.processed c) = fs (.processed c) := h _ (by simp [Rcon])
   have h2 : fs' .info = fs .info := h _ rfl
   have h3 : fs' .refFa = fs .refFa := h _ rfl
-  simp only [constructChr, refOK, FS.has, FS.good, h1, h2, h3]
+  have h4 : fs' .refFaiData = fs .refFaiData := h _ rfl
+  simp only [constructChr, refOK, FS.has, FS.good, h1, h2, h3, h4]
   rfl
 
 set_option maxRecDepth 8000 in
